@@ -11,3 +11,4 @@ CONSTANTS
   MaxDepth = 2
   Emit = TRUE
   CheckDump = FALSE
+  ExcuseKnown = TRUE
